@@ -108,7 +108,7 @@ theorem finish_fresh (cfg : Cfg) (gen sgen : Nat → Bytes) (q : Req) (c : Ctx) 
   unfold finish
   simp
 
-/-- the response as `handle` assembles it -/
+/-- the response as `handleCore` assembles it -/
 def assemble (c : Ctx) (r : Resp) : Resp :=
   { r with sc := c.sc, gens := c.gens, sgens := c.sgens, fg := c.fg, fs := c.fs, fd := c.fd }
 
@@ -192,19 +192,19 @@ theorem tail_frame (cfg : Cfg) (sgen : Nat → Bytes) (q : Req) (c : Ctx) (token
         cases e2 <;> exact h1.trans h2
     · exact h1
 
-/-- the request context `handle` starts from -/
+/-- the request context `handleCore` starts from -/
 def ctx0 (cfg : Cfg) (sgen : Nat → Bytes) (st : St) (q : Req) : Ctx :=
   if cfg.backend = .sessMw then mwLoad sgen q { st := st } else { st := st }
 
 /-- … and the one it ends with -/
 def ctxEnd (cfg : Cfg) (c : Ctx) : Ctx := if cfg.backend = .sessMw then mwSave c else c
 
-theorem handle_reject (cfg : Cfg) (gen sgen : Nat → Bytes) (st : St) (q : Req) (c1 : Ctx) (e : Bool)
-    (hd : decide' cfg sgen q (ctx0 cfg sgen st q) = (c1, .reject e)) :
-    handle cfg gen sgen st q =
+theorem handle_reject (cfg : Cfg) (gen sgen : Nat → Bytes) (st : St) (q : Req) (c1 : Ctx) (e : Bool) (er : Err)
+    (hd : decide' cfg sgen q (ctx0 cfg sgen st q) = (c1, .reject e er)) :
+    handleCore cfg gen sgen st q =
       ((ctxEnd cfg c1).st, assemble (ctxEnd cfg c1)
-        { pass := false, status := 403, ck := if e then some [] else none, early := c1.fg || c1.fs || c1.fd }) := by
-  unfold handle
+        { pass := false, status := cfg.eh er, ck := if e then some [] else none, early := c1.fg || c1.fs || c1.fd }) := by
+  unfold handleCore
   unfold ctx0 at hd
   simp only [hd]
   rfl
@@ -212,8 +212,8 @@ theorem handle_reject (cfg : Cfg) (gen sgen : Nat → Bytes) (st : St) (q : Req)
 theorem handle_proceed (cfg : Cfg) (gen sgen : Nat → Bytes) (st : St) (q : Req) (c1 c2 : Ctx) (t : Bytes)
     (r2 : Resp) (hd : decide' cfg sgen q (ctx0 cfg sgen st q) = (c1, .proceed t))
     (hf : finish cfg gen sgen q c1 t = (c2, r2)) :
-    handle cfg gen sgen st q = ((ctxEnd cfg c2).st, assemble (ctxEnd cfg c2) r2) := by
-  unfold handle
+    handleCore cfg gen sgen st q = ((ctxEnd cfg c2).st, assemble (ctxEnd cfg c2) r2) := by
+  unfold handleCore
   unfold ctx0 at hd
   simp only [hd, hf]
   rfl
@@ -226,8 +226,8 @@ theorem specReq_intro (scfg : SpecCfg) (s0 : SpecSt) (q : Req) (o : Obs) (live1 
               (afterDel scfg q o (afterGens scfg { s0 with issued := s0.issued ++ o.gens } o live1))
            else rejectClause o live1) = .ok live2)
     (h3 : probeSound { now := s0.now, live := live2, issued := s0.issued ++ o.gens } o = true) :
-    specReq scfg s0 q o = .ok { now := s0.now, live := live2, issued := s0.issued ++ o.gens } := by
-  unfold specReq
+    specReqCore scfg s0 q o = .ok { now := s0.now, live := live2, issued := s0.issued ++ o.gens } := by
+  unfold specReqCore
   simp only [h1, h2, h3]
   rfl
 
